@@ -92,6 +92,12 @@ func Harness_C17_distributor() {
 	ll := &loglist3.LogList{Operators: []*loglist3.Operator{
 		{Name: "A", Logs: []*loglist3.Log{{URL: "la", State: usable}}},
 		{Name: "B", Logs: []*loglist3.Log{{URL: "lb", State: usable}}},
+		// logs that are not usable: pending, retired, and one whose temporal interval ended before the certificate's NotAfter
+		{Name: "C", Logs: []*loglist3.Log{
+			{URL: "lpending", State: &loglist3.LogStates{Pending: &loglist3.LogState{}}},
+			{URL: "lretired", State: &loglist3.LogStates{Retired: &loglist3.LogState{}}},
+			{URL: "lexpired", State: usable, TemporalInterval: &loglist3.TemporalInterval{StartInclusive: time.Unix(1500000000, 0), EndExclusive: time.Unix(1700000000, 0)}},
+		}},
 	}}
 	rootA, rootB := []byte{0xca}, []byte{0xcb}
 	builder := func(l *loglist3.Log) (client.AddLogClient, error) {
@@ -135,6 +141,8 @@ func Harness_C17_distributor() {
 	mu.Lock()
 	defer mu.Unlock()
 	vAssert(sent["la"] <= 1 && sent["lb"] <= 1, "no log is sent the chain more than once")
+	vAssert(sent["lpending"] == 0 && sent["lretired"] == 0, "only usable logs are contacted")
+	vAssert(sent["lexpired"] == 0, "a log whose temporal interval does not contain the certificate's NotAfter (here: NotAfter equals its end) is not contacted")
 	for _, a := range scts {
 		vAssert(sent[a.LogURL] == 1, "SCTs come from contacted logs")
 	}
